@@ -247,3 +247,181 @@ Proof.
   - intros cs p H ch wf I. apply reasm_e2e_ok in H as (ks & f & _ & _ & -> & Hok). eapply pwbv_sent_i16; eauto.
   - intros cs p H. apply reasm_e2e_ok in H as (ks & f & _ & _ & -> & Hok). apply pwbv_sent_nodup; auto.
 Qed.
+
+Theorem e2e_env_typed run : env_typed (env_e2e run).
+Proof. apply e2e_env_typed_m. Qed.
+Theorem e2e_banks_typed banks : Forall bytes (map snd banks) ->
+  banks_typed (map (fun nd => decode_bank (fst nd) (snd nd)) banks).
+Proof. apply (e2e_banks_typed_m Checked). Qed.
+
+(* ------------------------------------------------------------------ (b) totality of the composed model (C09) *)
+Theorem e2e_build_total m run banks order : Forall bytes (map snd banks) ->
+  try_from_banks_model m run banks order <> Panic.
+Proof.
+  intros H. unfold try_from_banks_model. apply build_total_lemma; [apply e2e_env_typed_m | apply e2e_banks_typed_m; auto].
+Qed.
+
+(* ------------------------------------------------------------------ the overflow mode does not matter anywhere *)
+Lemma decode_bank_mode name data : bytes data -> decode_bank_m Checked name data = decode_bank_m Wrapping name data.
+Proof.
+  intros Hb. unfold decode_bank_m, adc_view, chunk_view.
+  rewrite (Adc_proofs.adc_no_wrap_lemma adc_macs data Hb), (Chunk_proofs.chunk_no_wrap_lemma pwb_devices data Hb).
+  reflexivity.
+Qed.
+Lemma decode_banks_mode banks : Forall bytes (map snd banks) -> decode_banks_m Checked banks = decode_banks_m Wrapping banks.
+Proof.
+  unfold decode_banks_m. intros H. apply map_ext_in. intros [n d] I. cbn [fst snd].
+  apply decode_bank_mode. rewrite Forall_forall in H. apply H. apply (in_map snd _ _ I).
+Qed.
+Lemma chunks_of_views_mode cs : chunks_of_views Checked cs = chunks_of_views Wrapping cs.
+Proof.
+  induction cs as [|c t IH]; cbn [chunks_of_views]; [reflexivity|].
+  rewrite (Chunk_proofs.chunk_no_wrap_lemma pwb_devices _ (bytes_of_uid_bytes (c_uid c))), IH. reflexivity.
+Qed.
+
+Lemma nodup_nth_eq {A} (l : list A) i j a : NoDup l -> nth_error l i = Some a -> nth_error l j = Some a -> i = j.
+Proof.
+  intros ND Hi Hj. assert (Li : (i < length l)%nat) by (apply nth_error_Some; congruence).
+  apply (proj1 (NoDup_nth_error l) ND i j Li). congruence.
+Qed.
+Lemma pwbv_of_mode f : Pwb.pwb_fields_ok pwb_macs f -> pwbv_of Checked f = pwbv_of Wrapping f.
+Proof.
+  intros Hok. unfold pwbv_of. f_equal. apply map_ext_in. intros c Hc. f_equal. unfold sent_wf.
+  destruct (Pwb_proofs.waveform_at_block_lemma pwb_macs Checked f c Hok Hc) as (k & w & Hk & Hw & Hat & _).
+  destruct (Pwb_proofs.waveform_at_block_lemma pwb_macs Wrapping f c Hok Hc) as (k' & w' & Hk' & Hw' & Hat' & _).
+  rewrite Hat, Hat'.
+  assert (ND : NoDup (Pwb.p_sent f)).
+  { destruct Hok as (_ & _ & _ & _ & _ & _ & _ & _ & _ & [_ S] & _). eapply ssorted_map_nodup; eauto. }
+  rewrite (nodup_nth_eq _ k k' c ND Hk Hk') in Hw. congruence.
+Qed.
+
+Lemma reasm_e2e_mode cs : reasm_e2e Checked cs = reasm_e2e Wrapping cs.
+Proof.
+  unfold reasm_e2e. rewrite chunks_of_views_mode.
+  destruct (chunks_of_views Wrapping cs) as [ks|] eqn:E; [|reflexivity].
+  pose proof (chunks_of_views_ok Wrapping cs ks E) as Ho.
+  pose proof (fun m f => Reasm_proofs.reasm_ok_iff pwb_devices m Pwb.pwb (Pwb.pwb_decode pwb_macs m)
+                Reasm.isort_by_id ks f Reasm_proofs.isort_admissible Ho) as IFF.
+  assert (Hb : bytes (Reasm.concat_by_id ks)) by (eapply Reasm_proofs.bytes_concat_by_id; eauto).
+  assert (X : forall f, Reasm.reasm pwb_devices Checked Reasm.isort_by_id Pwb.pwb (Pwb.pwb_decode pwb_macs Checked) ks = Ok f <->
+                        Reasm.reasm pwb_devices Wrapping Reasm.isort_by_id Pwb.pwb (Pwb.pwb_decode pwb_macs Wrapping) ks = Ok f).
+  { intros f. rewrite (IFF Checked f), (IFF Wrapping f), (Pwb_proofs.pwb_no_wrap_lemma pwb_macs _ Hb). tauto. }
+  destruct (Reasm.reasm pwb_devices Checked _ _ _ ks) as [f| |] eqn:RC.
+  - rewrite (proj1 (X f) eq_refl). f_equal. apply pwbv_of_mode.
+    apply (IFF Checked f) in RC. destruct RC as [_ D]. apply Pwb_proofs.pwb_exact_lemma in D; [apply D|exact Hb].
+  - destruct (Reasm.reasm pwb_devices Wrapping _ _ _ ks) as [f| |] eqn:RW; auto.
+    pose proof (proj2 (X f) eq_refl) as Q. discriminate.
+  - destruct (Reasm.reasm pwb_devices Wrapping _ _ _ ks) as [f| |] eqn:RW; auto.
+    pose proof (proj2 (X f) eq_refl) as Q. discriminate.
+Qed.
+
+(* build depends on the environment only through the values of its five functions *)
+Section Ext.
+Variables (e e' : env float).
+Hypothesis Hwp : forall b c, wire_pos e b c = wire_pos e' b c.
+Hypothesis Hpp : forall b a c, pad_pos e b a c = pad_pos e' b a c.
+Hypothesis Hwc : forall w, wire_cal e w = wire_cal e' w.
+Hypothesis Hpc : forall c r, pad_cal e c r = pad_cal e' c r.
+Hypothesis Hre : forall cs, reasm e cs = reasm e' cs.
+
+Lemma step_wire_ext m nm ws nb nc d : step_wire fcal64 e m nm ws nb nc d = step_wire fcal64 e' m nm ws nb nc d.
+Proof.
+  unfold step_wire. destruct d as [|p]; auto. destruct (a_chan p); auto. destruct (negb _); auto.
+  destruct (mem2 _ _); auto. destruct (a_wf p); auto. rewrite Hwp.
+  destruct (wire_pos e' _ c); auto. destruct (negb _); auto. destruct (assocN a ws); auto. rewrite Hwc. reflexivity.
+Qed.
+Lemma loop_ext m banks : forall s, loop fcal64 e m s banks = loop fcal64 e' m s banks.
+Proof.
+  induction banks as [|b t IH]; intros s; cbn [loop]; auto.
+  assert (E : step fcal64 e m s b = step fcal64 e' m s b).
+  { destruct b; cbn [step]; auto. rewrite step_wire_ext. reflexivity. }
+  rewrite E. destruct (step fcal64 e' m s b); cbn [bind]; auto.
+Qed.
+Lemma chan_loop_ext m p l : forall s, chan_loop fcal64 e m p s l = chan_loop fcal64 e' m p s l.
+Proof.
+  induction l as [|x t IH]; intros s; cbn [chan_loop]; auto.
+  assert (E : step_chan fcal64 e m p s x = step_chan fcal64 e' m p s x).
+  { unfold step_chan. destruct (fst x); auto. destruct (unwrap _); cbn [bind]; auto. rewrite Hpp.
+    destruct (pad_pos e' _ _ c) as [|[col r]]; auto. destruct (negb _); auto. destruct (mem2 _ _); auto.
+    rewrite Hpc. reflexivity. }
+  rewrite E. destruct (step_chan fcal64 e' m p s x); cbn [bind]; auto.
+Qed.
+Lemma group_loop_ext m gs : forall s, group_loop fcal64 e m s gs = group_loop fcal64 e' m s gs.
+Proof.
+  induction gs as [|cs t IH]; intros s; cbn [group_loop]; auto.
+  assert (E : step_group fcal64 e m s cs = step_group fcal64 e' m s cs).
+  { unfold step_group. rewrite Hre. destruct (reasm e' cs); auto. apply chan_loop_ext. }
+  rewrite E. destruct (step_group fcal64 e' m s cs); cbn [bind]; auto.
+Qed.
+Lemma build_ext m order banks : build fcal64 e m order banks = build fcal64 e' m order banks.
+Proof.
+  unfold build. rewrite loop_ext. destruct (loop fcal64 e' m st0 banks); cbn [bind]; auto.
+  rewrite group_loop_ext. reflexivity.
+Qed.
+End Ext.
+
+(* a build with overflow checks and one without behave identically, decoders included (C09) *)
+Theorem e2e_build_no_wrap run banks order : Forall bytes (map snd banks) ->
+  try_from_banks_model Checked run banks order = try_from_banks_model Wrapping run banks order.
+Proof.
+  intros H. unfold try_from_banks_model.
+  rewrite (build_no_wrap_lemma float fcal64 (env_e2e_m Checked run) order (decode_banks_m Checked banks)
+             (e2e_env_typed_m Checked run) (e2e_banks_typed_m Checked banks H)).
+  rewrite (decode_banks_mode banks H).
+  apply build_ext; cbn [env_e2e_m wire_pos pad_pos wire_cal pad_cal reasm]; auto.
+  apply reasm_e2e_mode.
+Qed.
+
+(* the mode parameter of the environment and of the bank decoder is immaterial *)
+Theorem e2e_mode_irrelevant m run banks order : Forall bytes (map snd banks) ->
+  try_from_banks_model m run banks order =
+  build fcal64 (env_e2e run) m order (map (fun nd => decode_bank (fst nd) (snd nd)) banks).
+Proof.
+  intros H. destruct m; [reflexivity|]. unfold try_from_banks_model, env_e2e.
+  change (map (fun nd => decode_bank (fst nd) (snd nd)) banks) with (decode_banks_m Checked banks).
+  rewrite (decode_banks_mode banks H).
+  apply build_ext; cbn [env_e2e_m wire_pos pad_pos wire_cal pad_cal reasm]; auto.
+  intros cs. symmetry. apply reasm_e2e_mode.
+Qed.
+
+(* ------------------------------------------------------------------ (c) the run's wire map is one-to-one (C08) *)
+Theorem e2e_wire_pos_injective m run : wire_pos_injective (env_e2e_m m run).
+Proof.
+  intros b c b' c' w H H'. cbn [env_e2e_m wire_pos] in H, H'.
+  destruct (Maps.wire_position run b c) eqn:E; cbn in H; try discriminate. inv H.
+  destruct (Maps.wire_position run b' c') eqn:E'; cbn in H'; try discriminate. inv H'.
+  eapply wire_position_inj; eauto.
+Qed.
+
+(* ------------------------------------------------------------------ reassembly is arrival-order independent (C04) *)
+Lemma chunks_of_views_perm m cs cs' : Permutation cs cs' -> forall ks, chunks_of_views m cs = Some ks ->
+  exists ks', chunks_of_views m cs' = Some ks' /\ Permutation ks ks'.
+Proof.
+  induction 1 as [|c t t' P IH|c d t|a b c P1 IH1 P2 IH2]; intros ks H.
+  - exists ks. split; [exact H|apply Permutation_refl].
+  - cbn [chunks_of_views] in *.
+    destruct (Chunk.chunk_decode pwb_devices m (bytes_of_uid (c_uid c))) as [k| |]; try discriminate.
+    destruct (chunks_of_views m t) as [ks0|] eqn:E; [|discriminate]. inv H.
+    destruct (IH ks0 eq_refl) as (ks1 & E1 & P1). rewrite E1. exists (k :: ks1). split; [reflexivity|].
+    apply perm_skip; auto.
+  - cbn [chunks_of_views] in *.
+    destruct (Chunk.chunk_decode pwb_devices m (bytes_of_uid (c_uid d))) as [kd| |]; try discriminate.
+    destruct (Chunk.chunk_decode pwb_devices m (bytes_of_uid (c_uid c))) as [kc| |];
+      [|destruct (chunks_of_views m t); discriminate|destruct (chunks_of_views m t); discriminate].
+    destruct (chunks_of_views m t) as [ks0|]; [|discriminate]. inv H.
+    exists (kc :: kd :: ks0). split; [reflexivity|apply perm_swap].
+  - destruct (IH1 ks H) as (k1 & E1 & Q1). destruct (IH2 k1 E1) as (k2 & E2 & Q2).
+    exists k2. split; [exact E2|eapply Permutation_trans; eauto].
+Qed.
+
+Theorem e2e_reasm_perm m run : reasm_perm (env_e2e_m m run).
+Proof.
+  intros cs cs' P. cbn [env_e2e_m reasm]. unfold reasm_e2e.
+  destruct (chunks_of_views m cs) as [ks|] eqn:E.
+  - destruct (chunks_of_views_perm m cs cs' P ks E) as (ks' & E' & Q). rewrite E'.
+    rewrite (Reasm_proofs.reasm_perm pwb_devices m Pwb.pwb (Pwb.pwb_decode pwb_macs m) Reasm.isort_by_id
+               Reasm.isort_by_id ks ks' Reasm_proofs.isort_admissible Reasm_proofs.isort_admissible
+               (chunks_of_views_ok m cs ks E) Q). reflexivity.
+  - destruct (chunks_of_views m cs') as [ks'|] eqn:E'; [|reflexivity].
+    destruct (chunks_of_views_perm m cs' cs (Permutation_sym P) ks' E') as (ks & E2 & _). congruence.
+Qed.
